@@ -50,6 +50,10 @@ class Monitor:
     def cells(self):
         return ()
 
+    def live_cells(self):
+        """Cells the monitor may still need to see refined (keeps them out of abstraction)."""
+        return ()
+
     def rename_cells(self, ren):
         pass
 
@@ -58,3 +62,59 @@ class Monitor:
 
     def finish(self, m, st):
         pass
+
+
+class ScannerContract(Monitor):
+    """C12: every consumed byte is in class K; on return the scanner is at the end of input or
+    in front of a byte outside K."""
+
+    def __init__(self, cls_mask, name):
+        self.K = cls_mask
+        self.name = name
+        self.pending = []  # consumed cells whose set is not (yet) inside K
+        self.nconsumed = 0
+
+    def clone(self):
+        c = ScannerContract(self.K, self.name)
+        c.pending = list(self.pending)
+        c.nconsumed = self.nconsumed
+        return c
+
+    def key(self):
+        return (tuple(self.pending), min(self.nconsumed, 1))
+
+    def consume(self, m, st, cid, i):
+        self.nconsumed += 1
+        if st.cells[cid] & ~self.K & FULL:
+            self.pending.append(cid)
+
+    def cells(self):
+        return tuple(self.pending)
+
+    def live_cells(self):
+        return tuple(self.pending)
+
+    def rename_cells(self, ren):
+        self.pending = [ren[c] for c in self.pending]
+
+    def check_pending(self, m, st, when):
+        for c in self.pending:
+            bad = st.cells[c] & ~self.K & FULL
+            if bad:
+                m.violate(st, "scanner-consumed-out-of-class", "%s consumed a byte that may be %s (%s)" % (self.name, mask_str(bad), when))
+        self.pending = []
+
+    def at_loop_head(self, m, st):
+        self.check_pending(m, st, "at loop head")
+
+    def finish(self, m, st):
+        self.check_pending(m, st, "at return")
+        if st.tape:
+            inside = st.cells[st.tape[0]] & self.K
+            if inside:
+                m.violate(st, "scanner-stopped-early", "%s returned in front of a byte that may be %s (in class)" % (self.name, mask_str(inside)))
+        elif not st.eof:
+            m.violate(st, "scanner-stopped-early", "%s returned without looking at the next byte although input may remain" % self.name)
+
+    def describe(self, st):
+        return {"scanner": self.name, "trace": st.trace[-12:]}
